@@ -20,6 +20,9 @@ Streams (model `Wpull.Url` vs the real code in ctx.repo):
            import InputURLTask._read_input_urls, on URLs with braces and format-spec look-alikes ({id} {} {0} {0!r} {:>9} lone braces
            {{x}} %s %(x)s) in path / query / fragment and #! fragments: nothing but ValueError-or-skip; result = the concatenation
            reference; model rewriteEscaped agrees (hash-fragment part)
+  itemsession  the real ItemSession (add_url / add_child_url / set_status / skip / finish) on a real in-memory SQLite URL table: each
+           unparseable link is offered 2-3 times within and across item sessions of one process, flush included: add never raises,
+           nothing unparseable is queued, the flush never raises, the good links are stored
   scrape   the consumer of the logging variant: the real ProcessingRule.scrape_document / _process_scrape_info (real FetchRule,
            real URLRewriter with every option combination incl. none, stub ItemSession table and scraper result) on link lists
            mixing parseable links with every class of unparseable one: never raises, unparseable skipped, parseable queued
@@ -503,6 +506,85 @@ def gen_starts(ctx, rng, n):
     return out
 
 
+def itemsession_batch(ctx, wu, rounds, rng):
+    """the real ItemSession on a real (in-memory SQLite) URL table: every unparseable link is offered several times, within
+    one item session and across item sessions of one process, through add_url and add_child_url, flush included:
+    add never raises, nothing unparseable is queued, set_status / skip / finish never raise, the good links are stored"""
+    from wpull.database.base import AddURLInfo
+    from wpull.database.sqltable import SQLiteURLTable
+    from wpull.database.wrap import URLTableHookWrapper
+    from wpull.pipeline.item import Status
+    from wpull.pipeline.session import ItemSession
+    for rnd in range(rounds):
+        pool = list(JUNK_LINKS) + [uc.gen_malformed(rng) for _ in range(12)]
+        bad, maybe_good = [], []
+        for link in pool:
+            try:
+                ok = wu.parse_url_or_log(link) is not None
+            except Exception:
+                ok = False
+            if not ok:
+                bad.append(link)
+            else:
+                try:
+                    link.encode('utf-8')
+                    maybe_good.append(link)
+                except UnicodeError:
+                    # accepted by the parser (no network scheme: nothing is encoded) but not storable in the SQLite
+                    # table: a matter of the table / crawl robustness (C14, C09), reported to the coordinator, not offered here
+                    ctx.tag('itemsession:parseable-but-unstorable-surrogate')
+        bad = bad[:rng.randrange(2, 9)]
+        table = URLTableHookWrapper(SQLiteURLTable(path=':memory:'))
+        pages = ['http://example.com/r%d/page%d' % (rnd, i) for i in range(rng.randrange(2, 5))]
+        table.add_many([AddURLInfo(p, None, None) for p in pages])
+        app = type('App', (), {})()
+        app.factory = {'URLTable': table}
+        good_all = []
+        case = {'stream': 'itemsession', 'bad': bad, 'pages': len(pages), 'seed': [rnd]}
+        failed = False
+        for number in range(len(pages)):
+            record = table.check_out(Status.todo)
+            item = ItemSession(app, record)
+            offers = []
+            for link in bad:
+                offers += [link] * rng.choice([1, 2])       # again on every page, sometimes twice on one page
+            good = ['http://example.com/r%d/good%d-%d' % (rnd, number, k) for k in range(rng.randrange(1, 4))]
+            good += [g for g in maybe_good if rng.random() < 0.2]
+            offers += good
+            rng.shuffle(offers)
+            for link in offers:
+                try:
+                    # (add_url is reached through add_child_url, as in the crawler; rows without URL properties mixed
+                    # into one batch are a matter of the table, property C14)
+                    item.add_child_url(link, inline=rng.random() < 0.3)
+                except BaseException as e:
+                    ctx.fail('raises', 'ItemSession.add_url', case, 'page %d: adding %r raised %s: %s' % (number, link, type(e).__name__, str(e)[:150]))
+                    failed = True
+            queued = [info.url for info in item._add_url_batch]
+            for link in bad:
+                if link in queued:
+                    ctx.fail('unparseable-queued', 'ItemSession.add_url', case,
+                             'page %d: the unparseable link %r was put into the add batch (offer number %d in this process)' % (number, link, number + 1))
+                    failed = True
+            good_all += good
+            try:
+                how = rng.choice(['done', 'skip', 'error'])
+                if how == 'skip':
+                    item.skip()
+                else:
+                    item.set_status(Status.done if how == 'done' else Status.error)
+            except BaseException as e:
+                ctx.fail('raises', 'ItemSession.set_status', case, 'page %d: the flush raised %s: %s' % (number, type(e).__name__, str(e)[:150]))
+                failed = True
+        stored = sorted(r.url for r in table.get_all())
+        expected = sorted(set(pages + good_all))
+        ctx.case(('itemsession', rnd, tuple(bad)), tags=['itemsession:' + ('fail' if failed else 'ok')])
+        if stored != expected:
+            ctx.fail('links-lost', 'ItemSession', case, 'the table holds %d URLs, expected %d; missing %r, extra %r'
+                     % (len(stored), len(expected), sorted(set(expected) - set(stored))[:5], sorted(set(stored) - set(expected))[:5]))
+    ctx.sample({'stream': 'itemsession', 'rounds': rounds})
+
+
 def gen_rewrite_urls(ctx, rng, n):
     out = list(uc.BRACE_LINKS) + list(START_URLS)
     for _ in range(n):
@@ -679,6 +761,9 @@ def replay(ctx, case, kind=None, where=None):
         sitemaps_batch(ctx, wu, [case['url']])
     elif s == 'rewrite':
         rewrite_batch(ctx, wu, [case['url']])
+    elif s == 'itemsession':
+        import random
+        itemsession_batch(ctx, wu, 30, random.Random(0))
     else:
         raise Infra('unknown replay stream %r' % s)
 
@@ -706,6 +791,7 @@ def run(ctx):
         rs(ctx, 'orlog', lambda: batch(ctx, wu, ol, op='orlog'))
     rs(ctx, 'join', lambda: join_batch(ctx, wu, gen_pairs(ctx, ctx.subrng('join'), ctx.scale(3000, 60000))))
     rs(ctx, 'scrape', lambda: scrape_batch(ctx, wu, gen_link_lists(ctx, ctx.subrng('scrape'), ctx.scale(400, 6000))))
+    rs(ctx, 'itemsession', lambda: itemsession_batch(ctx, wu, ctx.scale(60, 600), ctx.subrng('itemsession')))
     rs(ctx, 'rewrite', lambda: rewrite_batch(ctx, wu, gen_rewrite_urls(ctx, ctx.subrng('rewrite'), ctx.scale(500, 8000))))
     rs(ctx, 'sitemaps', lambda: sitemaps_batch(ctx, wu, gen_starts(ctx, ctx.subrng('sitemaps'), ctx.scale(600, 10000))))
     hrng = ctx.subrng('html')
@@ -727,3 +813,4 @@ def search(ctx):
     html_batch(ctx, wu, [gen_doc(rng) for _ in range(ctx.scale(30, 100))])
     sitemaps_batch(ctx, wu, gen_starts(ctx, rng, ctx.scale(30, 100)))
     rewrite_batch(ctx, wu, gen_rewrite_urls(ctx, rng, ctx.scale(30, 100)))
+    itemsession_batch(ctx, wu, ctx.scale(10, 30), rng)
